@@ -33,8 +33,8 @@ CHECKS.update({
   text="the real Collect on a symbolic store (any kind/type, symbolic int64/float64 values incl. NaN/Inf, symbolic label bytes and timestamps, prog label and timestamps on/off): the recorded constructor calls are matched one-to-one with the store's label sets - name, label names/values, value as float64, value type, timestamp iff enabled, histogram cumulative counts; label sets the client library refuses (modelled: the harness key is either a valid label name or `key-a`, label bytes may be non-UTF-8) or that the solver refuses are skipped and exactly all others are emitted",
   note="claim is to the client-library boundary (arguments of NewConstMetric/NewConstHistogram/NewMetricWithTimestamp); expfmt text rendering and registry checks outside; quick: 1 metric x <=2 label sets; thorough: that plus 2 metrics x <=1 label set"),
  "C14": dict(level="model_checking", ref="DESIGN.md 4 C14",
-  text="store part: Store.Add(m') for a re-declared metric from an arbitrary valid store - kept declaration keeps datum objects and pending expiry, changed keys drop data, a refused Add leaves the store unchanged, the old metric never stays next to the new one (one known finding listed: type/source change leaves a duplicate)",
-  note="store part only so far; loader part (CompileAndRun) pending; same harness as C06 with the C14.* assertions"),
+  text="store part: Store.Add(m') for a re-declared metric from an arbitrary valid store - kept declaration keeps datum objects and pending expiry, changed keys drop data, a refused Add leaves the store unchanged, the old metric never stays next to the new one (one known finding listed: type/source change leaves a duplicate); loader part: every history of 3 (thorough 4) Runtime.CompileAndRun calls over {same text, comment-only edit, other program, syntax error, registration refused by a kind conflict, keys changed, declaration moved} and every history of directory edits + LoadAllPrograms - identical source changes nothing (same VM, same store objects, no load counted), a failed compile or refused registration leaves store and running VM exactly as they were, a kept declaration keeps its datum, a replaced VM is stopped",
+  note="store step as C06; loader histories enumerated by forking over a model file system with the working tree's compiler's answers replayed (bridge); lines and GC during a reload are outside (C20, C11)"),
  "C22": dict(level="model_checking", ref="DESIGN.md 4 C22",
   text="metamorphic check of metricToGraphite/Statsd/Collectd/Varz on the real code: the record for label set 2 of a two-label-set metric equals the record of a metric holding only that label set, for every kind/type incl. graphite histograms, with symbolic values, timestamps, observations and label letters; records of different label sets differ (records compared as sets of lines: graphite histogram lines are written in Go map order)",
   note="fmt.Sprintf etc. are engine models producing opaque formatted-number pieces (equal iff arguments equal); JSON export excluded (encoding/json reflection not encodable)"),
@@ -54,8 +54,8 @@ CHECKS.update({
   text="two-run equivalence on the real VM: instance A processes an arbitrary earlier line (symbolic match outcomes and captures) and then the line; instance B is a fresh vm.New on the same bytecode whose metrics were given A's values; the solver shows that metrics (label sets, values, expiry marks, timestamps up to clock skew) and the runtime-error count of the line are identical for every assignment, i.e. nothing but metrics is carried across lines (captures, time register, strptime memo, terminate flag, runtime error)",
   note="history of one earlier line (the carried state after one line is what the next line sees); corpus as C04 incl. strptime with two layouts, stop, failing conversions, short-circuit || with a capture read in the body; captures <= 1 byte quick, 2 thorough; time.Parse uninterpreted (same function for both instances)"),
  "C25": dict(level="model_checking", ref="DESIGN.md 4 C25",
-  text="per-unit exactness of the self-monitoring counters on every explored path: log_lines_total[source] moves by exactly the number of lines the LineReader delivered (C15 harness: every byte string, chunking and buffer size in bound, incl. the flushed last fragment); prog_runtime_errors_total[prog] moves by exactly 1 on a line aborted by a runtime error and 0 otherwise (C04 harness)",
-  note="expvar is a counter table in the engine (natively: the real expvar maps); prog_loads_total/prog_unloads_total/prog_load_errors_total (loader) and lines_total/log_count (whole program) are outside this claim"),
+  text="per-unit exactness of the self-monitoring counters on every explored path: log_lines_total[source] moves by exactly the number of lines the LineReader delivered (C15 harness: every byte string, chunking and buffer size in bound, incl. the flushed last fragment); prog_runtime_errors_total[prog] moves by exactly 1 on a line aborted by a runtime error and 0 otherwise (C04 harness) and never on a load; prog_loads_total / prog_unloads_total / prog_load_errors_total move by exactly the loads, unloads and failed loads (syntax error, refused registration) of every loader history (C14/C26 harnesses)",
+  note="expvar is a counter table in the engine (natively: the real expvar maps); lines_total vs the sum over all streams and log_count (whole program) are outside this claim"),
 })
 
 CHECKS.update({
@@ -68,6 +68,12 @@ CHECKS.update({
  "C01": dict(level="model_checking", ref="DESIGN.md 4 C01",
   text="differential bounded model checking of compiled programs against a reference interpreter of the intended tree written from docs/Language.md: program shapes are enumerated from a typed grammar (operator pairs at every level in both association orders, comparisons, && ||, =~, nested conditionals with else/otherwise, assignments and ++ -- +=, dimensioned metrics and label text, builtins and conversions, del / del after, stop, decorators with next); each shape's text is compiled by the working tree's compiler and run on the real VM, the reference runs on a second copy of the metrics; the solver decides equality of label sets, values, expiry marks and runtime-error outcome for every match outcome, capture and metric value; a shape the compiler rejects fails the check",
   note="quick 58 shapes, thorough ~330; one line per run from arbitrary metric values; captures <= 2 bytes; one listed known finding (otherwise after/inside an else body follows one global matched flag), attributed only on lines where the scope rule and the flag scheme decide an otherwise differently; reference choices where Language.md is silent are listed in harness/vm/c01.go"),
+})
+
+CHECKS.update({
+ "C26": dict(level="model_checking", ref="DESIGN.md 4 C26",
+  text="bounded symbolic execution of the real Runtime.LoadAllPrograms / LoadProgram / CompileAndRun / UnloadProgram over a model file system: (a) one file whose name is 5..7 (thorough 9) arbitrary bytes - it is loaded iff it is not hidden and its extension is exactly .mtail; (b) every history of 3 (thorough 4) edits over two program files (valid v1, valid v2, broken, removed) plus a dot-file, a non-.mtail file and a subdirectory, each followed by a reload: the running programs are exactly the eligible files that compiled since they were added, each on its latest compiled contents, an unchanged file keeps its VM, replaced and removed programs have their line channel closed",
+  note="file-name bytes are symbolic (solver); the history of edits is enumerated by forking; the compiler's answers are the working tree's compiler's, pre-computed through the bridge; natively the same harness runs on a real directory with the real compiler; lines are not sent (ordering across reloads is C20)"),
 })
 
 NOT_APPLICABLE = {
